@@ -173,6 +173,7 @@ class Sim:
         fired_before = len(self.rt.fired)
         kfail_before = self.rt.krylov_fail
         raised = None
+        self._note_rel_step_values()
         try:
             with contextlib.redirect_stdout(io.StringIO()):
                 res = fn(op)
@@ -232,6 +233,9 @@ class Sim:
         if self.krylov_failed:
             self.probes.inc('krylov_reported_nonconvergence_in_op')
         fired = len(self.rt.fired) - fired_before
+        self._note_rel_step_values()
+        if raised is None and fired == 0 and kind in ('totals', 'linearize') and not self.viol:
+            self._check_rel_steps()
         if fired:
             self.st.inc('faulted_ops')
             self.clean = False
@@ -288,12 +292,14 @@ class Sim:
             kn = self.knobs
             if kn.get('approx_totals'):
                 a = kn['approx_totals']
-                self.p.model.approx_totals(method=a['method'], step=a.get('step'), form=a.get('form')) \
+                self.p.model.approx_totals(method=a['method'], step=a.get('step'), form=a.get('form'),
+                                           **({'step_calc': a['step_calc']} if a.get('step_calc') else {})) \
                     if a['method'] == 'fd' else self.p.model.approx_totals(method='cs')
             for g, a in (kn.get('group_approx') or {}).items():
                 if g in self.groups:
                     if a['method'] == 'fd':
-                        self.groups[g].approx_totals(method='fd', step=a.get('step'), form=a.get('form'))
+                        self.groups[g].approx_totals(method='fd', step=a.get('step'), form=a.get('form'),
+                                                     **({'step_calc': a['step_calc']} if a.get('step_calc') else {}))
                     else:
                         self.groups[g].approx_totals(method='cs')
             if kn.get('approx_totals') and 'colored' in self.variant:
@@ -728,6 +734,55 @@ class Sim:
                     return False
         self.st.inc('totals_checked')
         return True
+
+    def _rel_step_scopes(self):
+        """[(group object, knob dict)] of the group-level FD approximations that were asked for a relative step."""
+        out = []
+        if self.p is None or not self.setup_done or 'colored' in self.variant:
+            # (the coloured twin declares its colouring with declare_coloring's own step options)
+            return out
+        a = self.knobs.get('approx_totals')
+        if a and a['method'] == 'fd' and a.get('step_calc') == 'rel_avg':
+            out.append((self.p.model, a))
+        for g, a in (self.knobs.get('group_approx') or {}).items():
+            if g in getattr(self, 'groups', {}) and a['method'] == 'fd' and a.get('step_calc') == 'rel_avg':
+                out.append((self.groups[g], a))
+        return out
+
+    def _note_rel_step_values(self):
+        """Relative steps are computed from the value a wrt variable has when the approximation is initialised
+        (and kept): remember the mean |value| of every candidate at every op boundary."""
+        try:
+            for grp, a in self._rel_step_scopes():
+                seen = self.__dict__.setdefault('_rel_means', {}).setdefault(grp.pathname, {})
+                for vec in (grp._inputs, grp._outputs):
+                    for name in vec._views:
+                        v = np.abs(np.asarray(vec._abs_get_val(name), dtype=complex).real).ravel()
+                        if v.size:
+                            seen.setdefault(name, set()).add(float(v.sum() / v.size))
+        except Exception:       # noqa
+            pass
+
+    def _check_rel_steps(self):
+        """I-12-steps: every step a group-level approximation holds for a wrt variable is step * mean|value| of
+        THAT variable at one of the states the history has passed through (or the documented minimum step)."""
+        for grp, a in self._rel_step_scopes():
+            scheme = grp._approx_schemes.get('fd')
+            seen = getattr(self, '_rel_means', {}).get(grp.pathname, {})
+            if scheme is None:
+                continue
+            for entry in (scheme._approx_groups or []):
+                wrt = entry[0]
+                if not isinstance(wrt, str) or wrt not in seen:
+                    continue
+                h = float(np.max(np.abs(np.asarray(entry[1][0], dtype=float))))
+                want = sorted({max(a['step'] * m, 1e-12) for m in seen[wrt]})
+                self.probes.inc('relative_group_steps_compared')
+                if not any(abs(h - e) <= 1e-9 * e for e in want):
+                    self.V('I-12-steps', f"group {grp.pathname!r} approximates wrt {wrt} with step {h!r}; "
+                           f"step_calc='rel_avg', step={a['step']} and the values this variable has had give "
+                           f"{want[:4]}")
+                    return
 
     def _used_fd_steps(self, c):
         """(min, max) finite-difference step currently cached by the approximation scheme of component c (a
